@@ -6,3 +6,17 @@ def memento_function(*plain_fn, **kw):
     if len(plain_fn) == 1 and not kw and callable(plain_fn[0]):
         return plain_fn[0]
     return lambda fn: fn
+
+
+class _Box:
+    def __init__(self, v):
+        self.v = v
+
+    def plus(self, n):
+        return _Box(self.v + n)
+
+
+def box(v):
+    """A helper of another package (never part of a version): wraps a value so that generated code can use the
+    result of a call through an attribute chain, `box(f(x)).v`, `box(f(x)).plus(g(x)).v`."""
+    return _Box(v)
